@@ -197,8 +197,14 @@ MaxSeq(s, k) == IF k = 0 THEN R0 ELSE RMax(s[k], MaxSeq(s, k - 1))
 \* group arguments: representation constraint to 1e-12; vector / scalar arguments: every coordinate
 \* is zero or of magnitude 0.1 .. 10
 CoordOk(x) == RSign(x) = 0 \/ (RLeq(Dec(1, -1), RAbs(x)) /\ RLeq(RAbs(x), RFromInt(10)))
+\* a std::vector (possibly nested) of vectors: a Bundle all of whose leaves are R:n
+RECURSIVE AllVecLeaves(_)
+AllVecLeaves(t) ==
+  IF t.k = "R" THEN TRUE
+  ELSE IF t.k = "B" THEN \A i \in 1..Len(t.parts) : AllVecLeaves(t.parts[i])
+  ELSE FALSE
 ArgInDomain(t, c) ==
-  IF IsVecT(t) THEN \A i \in 1..Len(c) : CoordOk(c[i])
+  IF AllVecLeaves(t) THEN \A i \in 1..Len(c) : CoordOk(c[i])
   ELSE LET u == GUnitResiduals(t, c) IN RLeq(MaxSeq(u, Len(u)), Dec(1, -12))
 ArgsFinite(e) == \A i \in 1..Len(e.args) : FinV(e.args[i].c)
 
@@ -313,8 +319,10 @@ CallCells(e, c, env, O, H, dom) ==
   IN <<"call|" \o e.fn \o "|" \o CallId(c), "clause|C08.restore." \o c.cm, "clause|" \o sfx \o ".value"
        >> \o (IF c.K = 0 THEN <<"clause|C08.subset.k0">>
              ELSE IF verb THEN <<"clause|C08.analytic.K" \o ToString(c.K) \o "." \o c.mode>>
-             ELSE (IF jdec THEN <<"clause|" \o sfx \o ".jac" \o (IF c.K = 2 THEN ".k2" ELSE "")>> ELSE <<"skipped|jac.notO1">>)
-                  \o (IF c.K < 2 THEN <<>> ELSE IF hdec THEN <<"clause|" \o sfx \o ".hess">> ELSE <<"skipped|hess.notO1">>))
+             ELSE (IF jdec THEN <<"clause|" \o sfx \o ".jac" \o (IF c.K = 2 THEN ".k2" ELSE ""), "acc|" \o e.fn \o "|jac">>
+                   ELSE <<"skipped|jac.notO1">>)
+                  \o (IF c.K < 2 THEN <<>> ELSE IF hdec THEN <<"clause|" \o sfx \o ".hess", "acc|" \o e.fn \o "|hess">>
+                      ELSE <<"skipped|hess.notO1">>))
 
 NeedsHess(e) == \E i \in 1..Len(e.calls) : e.calls[i].K = 2 /\ ~Verbatim(e, e.calls[i])
 
